@@ -123,6 +123,10 @@ package shimagent
 //@ ghost func keysWF(ks []*agent.Key) bool = forall(j, 0 <= j && j < len(ks), ks[j] != nil && akBlob(ks[j]) == blobid(asKey(ks[j])), ks[j])
 //@ ghost func srvOK(s *Server) bool = s != nil && inv(s) && wheld(s) && cacheOff(s)
 //@ ghost func validAt(c *ssh.Certificate, t int) bool = certutil.inWindow(c.ValidAfter, c.ValidBefore, t)
+//@ # a listed key is fine at clock t when it is not a (parsable) certificate or its validity window contains t
+//@ ghost func okBlob(b int, t int) bool = !(certBlob(b) && parseOKid(b)) || certutil.inWindow(certVA(b), certVB(b), t)
+//@ ghost func kb(k *agent.Key) int = blobid(asKey(k))
+//@ ghost func distinctKeys(ks []*agent.Key) bool = forall(p, 0 <= p && p < len(ks), forall(q, p < q && q < len(ks), kb(ks[p]) != kb(ks[q])))
 //@ func (*Server).filter(s)
 //@   flag logged
 //@   requires s != nil && inv(s) && wheld(s) && inv2(s)
@@ -139,6 +143,8 @@ package shimagent
 //@     (inAgentKeys == nil || (arr(inAgentKeys) == arr(ret(Agent.List, l0, 0)) && off(inAgentKeys) == off(ret(Agent.List, l0, 0)))) && len(inAgentKeys) <= len(ret(Agent.List, l0, 0)))
 //@   ensures [tables-only-shrink] forall(h#bytes, h in dom(s.certs), old(h in dom(s.certs)) && s.certs[h] == old(s.certs[h]))
 //@   ensures [one-clock-sample-per-purge] err == nil ==> calls(time.Now) == old(calls(time.Now)) + 1
+//@   ensures [no-listed-certificate-outside-its-validity-window] err == nil ==> forall(j, 0 <= j && j < len(inAgentKeys),
+//@     okBlob(kb(inAgentKeys[j]), tUnix(ret(time.Now, old(calls(time.Now)), 0))))
 //@   ensures [no-in-memory-certificate-outside-its-validity-window] err == nil ==> forall(h#bytes, h in dom(s.certs),
 //@     validAt(s.certs[h].Certificate, tUnix(ret(time.Now, old(calls(time.Now)), 0))))
 
@@ -162,12 +168,14 @@ package shimagent
 //@     invariant certsNonNil(outer(s))
 //@     invariant keysWF(keysInAgent)
 //@     invariant keysWF(outer(inAgentKeys))
+//@     invariant distinctKeys(outer(inAgentKeys))
 //@     invariant arr(outer(inAgentKeys)) == arr(keysInAgent) && off(outer(inAgentKeys)) == off(keysInAgent) && len(outer(inAgentKeys)) <= len(keysInAgent)
 //@   loop 2:
 //@     invariant publicKeys != nil && srvOK(outer(s)) && certsInMemory == outer(s).certs
 //@     invariant certsNonNil(outer(s))
 //@     invariant keysWF(keysInAgent)
 //@     invariant keysWF(outer(inAgentKeys))
+//@     invariant distinctKeys(outer(inAgentKeys))
 //@     invariant arr(outer(inAgentKeys)) == arr(keysInAgent) && off(outer(inAgentKeys)) == off(keysInAgent) && len(outer(inAgentKeys)) <= len(keysInAgent)
 //@     invariant [tables-only-shrink] outer(forall(h#bytes, h in dom(s.certs), old(h in dom(s.certs)) && s.certs[h] == old(s.certs[h])))
 
@@ -179,8 +187,11 @@ package shimagent
 //@     invariant certsNonNil(outer(s))
 //@     invariant keysWF(keysInAgent)
 //@     invariant keysWF(outer(inAgentKeys))
+//@     invariant distinctKeys(outer(inAgentKeys))
 //@     invariant arr(outer(inAgentKeys)) == arr(keysInAgent) && off(outer(inAgentKeys)) == off(keysInAgent) && len(outer(inAgentKeys)) <= len(keysInAgent)
 //@     invariant [tables-only-shrink] outer(forall(h#bytes, h in dom(s.certs), old(h in dom(s.certs)) && s.certs[h] == old(s.certs[h])))
+//@     invariant [no-listed-certificate-outside-its-validity-window] errs == nil ==> forall(p, 0 <= p && p < len(outer(inAgentKeys)) && p <= rangeindex,
+//@       okBlob(kb(keysInAgent[p]), tUnix(now)) || exists(q, rangeindex < q && q < len(keysInAgent), kb(keysInAgent[q]) == kb(keysInAgent[p])))
 //@   loop 2:
 //@     invariant srvOK(outer(s)) && certsInMemory == outer(s).certs
 //@     invariant calls(time.Now) == outer(old(calls(time.Now))) + 1 && now == ret(time.Now, outer(old(calls(time.Now))), 0) && !tIsZero(now)
@@ -188,6 +199,7 @@ package shimagent
 //@     invariant certsNonNil(outer(s))
 //@     invariant keysWF(keysInAgent)
 //@     invariant keysWF(outer(inAgentKeys))
+//@     invariant distinctKeys(outer(inAgentKeys))
 //@     invariant arr(outer(inAgentKeys)) == arr(keysInAgent) && off(outer(inAgentKeys)) == off(keysInAgent) && len(outer(inAgentKeys)) <= len(keysInAgent)
 //@     invariant [tables-only-shrink] outer(forall(h#bytes, h in dom(s.certs), old(h in dom(s.certs)) && s.certs[h] == old(s.certs[h])))
 
@@ -425,3 +437,5 @@ package shimagent
 //@       (!s.noUpstreamSSHCACert || !keyutil.castable(signerKey(uss[j])) ||
 //@        (!(sha(blobid(signerKey(uss[j]))) in dom(s.upstreamSSHCACertCache)) && !hiddenKey(signerKey(uss[j])))) ==>
 //@       exists(i, 0 <= i && i < len(signers), signers[i] == uss[j]))
+//@     invariant [no-listed-certificate-outside-its-validity-window] errs == nil ==> forall(p, 0 <= p && p < len(outer(inAgentKeys)), okBlob(kb(outer(inAgentKeys)[p]), tUnix(now)))
+
